@@ -72,34 +72,38 @@ NextRoot ==
 (* canonical_depth(dir) - base_depth: levels between the current root and directory e *)
 DepthBelowRoot(e) == LevelBelow(w, roots[ri], e)
 
-(* one iteration of the entry loop of the innermost activation *)
-PickEntry ==
-  /\ pc = "roots" /\ stack # <<>> /\ ~Top.draining /\ Top.unread # {}
-  /\ IF LimitReached
-     THEN \* `break` out of the loop
-          /\ stack' = SetTop([Top EXCEPT !.unread = {}])
-          /\ UNCHANGED <<queue, visited, found, out>>
-     ELSE \E e \in Top.unread :
-          LET f == Top
-              lvl == f.depth
-              report == win[1] = 0 \/ lvl >= win[1]
-              mayDescend == win[2] = 0 \/ lvl < win[2]
-              isdir == Kind(w, e) = "dir"
-              \* symlinks: read_link succeeds, ok_to_visit_dir inserts the inode and refuses (no `symlinks` option)
-              cand == mayDescend /\ (isdir \/ Kind(w, e) = "symlink")
-              fresh == e \notin visited
-              go == cand /\ fresh /\ isdir
-              rest == [f EXCEPT !.unread = f.unread \ {e}]
-          IN /\ out' = IF report THEN Append(out, e) ELSE out
-             /\ found' = IF report THEN found + 1 ELSE found
-             /\ visited' = IF cand THEN visited \cup {e} ELSE visited
-             /\ IF go /\ dfs
-                THEN /\ stack' = Append(SetTop(rest), [dir |-> e, depth |-> DepthBelowRoot(e) + 1,
-                                                       unread |-> ChildrenOf(w, e), pq |-> FALSE, draining |-> FALSE])
-                     /\ queue' = queue
-                ELSE /\ stack' = SetTop(rest)
-                     /\ queue' = IF go THEN Append(queue, e) ELSE queue
+(* `break` out of the entry loop: a streamed query has found `limit` rows *)
+LimitBreak ==
+  /\ pc = "roots" /\ stack # <<>> /\ ~Top.draining /\ Top.unread # {} /\ LimitReached
+  /\ stack' = SetTop([Top EXCEPT !.unread = {}])
+  /\ UNCHANGED <<w, roots, win, dfs, limit, ri, queue, visited, found, out, pc>>
+
+(* one iteration of the entry loop of the innermost activation, for the entry e that readdir returns next *)
+PickOne(e) ==
+  /\ pc = "roots" /\ stack # <<>> /\ ~Top.draining /\ e \in Top.unread /\ ~LimitReached
+  /\ LET f == Top
+         lvl == f.depth
+         report == win[1] = 0 \/ lvl >= win[1]
+         mayDescend == win[2] = 0 \/ lvl < win[2]
+         isdir == Kind(w, e) = "dir"
+         \* symlinks: without the `symlinks` option ok_to_visit_dir records the inode and refuses
+         cand == mayDescend /\ (isdir \/ Kind(w, e) = "symlink")
+         fresh == e \notin visited
+         go == cand /\ fresh /\ isdir
+         rest == [f EXCEPT !.unread = f.unread \ {e}]
+     IN /\ out' = IF report THEN Append(out, e) ELSE out
+        /\ found' = IF report THEN found + 1 ELSE found
+        /\ visited' = IF cand THEN visited \cup {e} ELSE visited
+        /\ IF go /\ dfs
+           THEN /\ stack' = Append(SetTop(rest), [dir |-> e, depth |-> DepthBelowRoot(e) + 1,
+                                                  unread |-> ChildrenOf(w, e), pq |-> FALSE, draining |-> FALSE])
+                /\ queue' = queue
+           ELSE /\ stack' = SetTop(rest)
+                /\ queue' = IF go THEN Append(queue, e) ELSE queue
   /\ UNCHANGED <<w, roots, win, dfs, limit, ri, pc>>
+
+(* readdir order is arbitrary: any unread entry may come next *)
+PickEntry == LimitBreak \/ \E e \in UNION { f.unread : f \in { stack[k] : k \in 1 .. Len(stack) } } : PickOne(e)
 
 (* the entry loop is over: the top-level activation drains the queue, the others return *)
 EndOfDir ==
